@@ -79,7 +79,7 @@ func gen(t *rapid.T) Program {
 	nr := rapid.IntRange(1, 6).Draw(t, "nreaders")
 	for w := 0; w < nw; w++ {
 		var ops []WOp
-		for i, n := 0, rapid.IntRange(20, 200).Draw(t, "wlen"); i < n; i++ {
+		for i, n := 0, rapid.IntRange(20, rig.Up(200)).Draw(t, "wlen"); i < n; i++ {
 			op := WOp{P: rapid.IntRange(0, len(toggled)-1).Draw(t, "wp"), Yield: rapid.IntRange(0, 3).Draw(t, "wy") == 0}
 			switch k := rapid.IntRange(0, 9).Draw(t, "wk"); {
 			case k < 5:
@@ -100,7 +100,7 @@ func gen(t *rapid.T) Program {
 	}
 	for r := 0; r < nr; r++ {
 		var ops []ROp
-		for i, n := 0, rapid.IntRange(20, 200).Draw(t, "rlen"); i < n; i++ {
+		for i, n := 0, rapid.IntRange(20, rig.Up(200)).Draw(t, "rlen"); i < n; i++ {
 			op := ROp{Yield: rapid.IntRange(0, 3).Draw(t, "ry") == 0}
 			switch k := rapid.IntRange(0, 9).Draw(t, "rk"); {
 			case k < 4:
